@@ -1,0 +1,147 @@
+//! Read-only verification wrappers around the chordal analysis,
+//! augmentation and reversal (feature `verif` + `sdp`).
+#![allow(non_snake_case)]
+#![allow(missing_docs)]
+
+use super::*;
+use crate::algebra::*;
+use crate::solver::{DefaultSettings, DefaultVariables, SupportedConeT};
+
+/// one decomposed PSD cone: its clique tree as plain vectors
+#[derive(Debug, Clone)]
+pub struct TreeDump {
+    pub orig_index: usize,
+    pub ordering: Vec<usize>,
+    pub snode: Vec<Vec<usize>>,
+    pub separators: Vec<Vec<usize>>,
+    pub snode_parent: Vec<usize>,
+    pub snode_post: Vec<usize>,
+    pub nblk: Option<Vec<usize>>,
+    pub n_cliques: usize,
+}
+
+/// transformed problem as returned by the augmentation step
+#[allow(clippy::type_complexity)]
+pub struct AugmentedProblem<T> {
+    pub P: CscMatrix<T>,
+    pub q: Vec<T>,
+    pub A: CscMatrix<T>,
+    pub b: Vec<T>,
+    pub cones: Vec<SupportedConeT<T>>,
+}
+
+/// owner of a live `ChordalInfo`
+pub struct VerifChordal<T> {
+    info: ChordalInfo<T>,
+}
+
+pub const VERIF_NO_PARENT: usize = NO_PARENT;
+pub const VERIF_INACTIVE_NODE: usize = INACTIVE_NODE;
+
+impl<T: FloatT> VerifChordal<T> {
+    /// runs the real analysis (`ChordalInfo::new`) on the given data
+    pub fn new(
+        A: &CscMatrix<T>,
+        b: &[T],
+        cones: &[SupportedConeT<T>],
+        settings: &DefaultSettings<T>,
+    ) -> Self {
+        Self {
+            info: ChordalInfo::new(A, b, cones, settings),
+        }
+    }
+
+    pub fn is_decomposed(&self) -> bool {
+        self.info.is_decomposed()
+    }
+
+    pub fn init_dims(&self) -> (usize, usize) {
+        self.info.init_dims
+    }
+
+    pub fn trees(&self) -> Vec<TreeDump> {
+        self.info
+            .spatterns
+            .iter()
+            .map(|sp| {
+                let t = &sp.sntree;
+                TreeDump {
+                    orig_index: sp.orig_index,
+                    ordering: sp.ordering.clone(),
+                    snode: t.snode.iter().map(|s| s.iter().copied().collect()).collect(),
+                    separators: t
+                        .separators
+                        .iter()
+                        .map(|s| s.iter().copied().collect())
+                        .collect(),
+                    snode_parent: t.snode_parent.clone(),
+                    snode_post: t.snode_post.clone(),
+                    nblk: t.nblk.clone(),
+                    n_cliques: t.n_cliques,
+                }
+            })
+            .collect()
+    }
+
+    pub fn augment(
+        &mut self,
+        P: &CscMatrix<T>,
+        q: &[T],
+        A: &CscMatrix<T>,
+        b: &[T],
+        settings: &DefaultSettings<T>,
+    ) -> AugmentedProblem<T> {
+        let (P, q, A, b, cones) = self.info.decomp_augment(P, q, A, b, settings);
+        AugmentedProblem { P, q, A, b, cones }
+    }
+
+    /// the `H` matrix of the standard transformation, if any
+    pub fn H(&self) -> Option<CscMatrix<T>> {
+        self.info.H.clone()
+    }
+
+    /// `(orig_index, Some((tree, clique)))` per generated cone (compact transformation)
+    #[allow(clippy::type_complexity)]
+    pub fn cone_maps(&self) -> Option<Vec<(usize, Option<(usize, usize)>)>> {
+        self.info.cone_maps.as_ref().map(|v| {
+            v.iter()
+                .map(|e| (e.orig_index, e.tree_and_clique))
+                .collect()
+        })
+    }
+
+    /// maps internal (x,s,z) of the decomposed problem back to the original sizes
+    pub fn reverse(
+        &self,
+        x: &[T],
+        s: &[T],
+        z: &[T],
+        cones: &[SupportedConeT<T>],
+        settings: &DefaultSettings<T>,
+    ) -> (Vec<T>, Vec<T>, Vec<T>) {
+        let mut old = DefaultVariables::<T>::new(x.len(), s.len());
+        old.x.copy_from_slice(x);
+        old.s.copy_from_slice(s);
+        old.z.copy_from_slice(z);
+        let new = self.info.decomp_reverse(&old, cones, settings);
+        (new.x, new.s, new.z)
+    }
+}
+
+/// wrapper for the crate-private union-find used by the clique-graph merge
+pub struct VerifDisjointSetUnion {
+    dsu: DisjointSetUnion,
+}
+impl VerifDisjointSetUnion {
+    pub fn new(n: usize) -> Self {
+        Self {
+            dsu: DisjointSetUnion::new(n),
+        }
+    }
+    pub fn union(&mut self, x: usize, y: usize) {
+        self.dsu.union(x, y)
+    }
+    pub fn in_same_set(&mut self, x: usize, y: usize) -> bool {
+        self.dsu.in_same_set(x, y)
+    }
+}
